@@ -226,12 +226,12 @@ theorem ctx_tie :
     Generated.assigned_lookupRouter = ["cachedQuery", "params", "req", "route", "scope", "skipNds", "tsr", "w"] ∧
     Generated.assigned_lookupTxn = Generated.assigned_lookupRouter ∧
     Generated.assigned_CloneWith = ["cachedQuery", "req", "route", "scope", "tsr", "w"] ∧
-    Generated.cond_CloneWith = ["!c.tsr ? copyWithResize(cp.params, c.params) : copyWithResize(cp.tsrParams, c.tsrParams)"] ∧
+    Generated.cond_CloneWith = ["tsr=false: copyWithResize(cp.params, c.params)", "tsr=true: copyWithResize(cp.tsrParams, c.tsrParams)"] ∧
     Generated.cloneLiteral = [("fox", "c.fox"), ("req", "c.req.Clone(c.req.Context())"), ("route", "c.route"), ("scope", "c.scope"),
       ("tree", "c.tree"), ("tsr", "c.tsr")] ∧
     Generated.cloneWriterReads = ["c.w.Header", "c.w.Size", "c.w.Status", "c.w.Written"] ∧
-    Generated.cloneBufferForms = ["copy(params, *c.params)", "copy(tsrParams, *c.tsrParams)", "params := make(Params, len(*c.params))",
-      "params = &params", "tsrParams := make(Params, len(*c.tsrParams))", "tsrParams = &tsrParams"] ∧
+    Generated.cloneBufferForms = ["params <- make+copy of c.params", "tsrParams <- make+copy of c.tsrParams"] ∧
+    Generated.cloneCond = ["tsr=false: params", "tsr=true: tsrParams"] ∧
     Generated.c_notWritten = notWritten ∧
     Generated.c_RouteHandler = RouteHandler ∧ Generated.c_NoRouteHandler = NoRouteHandler ∧ Generated.c_NoMethodHandler = NoMethodHandler ∧
     Generated.c_RedirectHandler = RedirectHandler ∧ Generated.c_OptionsHandler = OptionsHandler := by
